@@ -417,6 +417,9 @@ def rec_function(E, sf):
     s.env = {n: V(k, p) for (n, k), p in zip(sf.params, params)}
     saved = E.frames
     E.frames = saved + [Frame(None, None, None, "spec:" + sf.name)]
+    # the body is evaluated over the FORMAL parameters: facts about what it reads ("a valid reference") would be facts
+    # about those constants, not about any actual argument -- they are not recorded (as under a quantifier)
+    E.__dict__.setdefault("quant_axioms", []).append({"n0": 0, "items": []})
     try:
         if sf.returns.tag == "bool":
             body = E.merged_bool(sf.node, s)
@@ -424,6 +427,7 @@ def rec_function(E, sf):
             body = E.merged_value(sf.node, s).t
     finally:
         E.frames = saved
+        E.quant_axioms.pop()
     z3.RecAddDefinition(f, params, body)
     return f
 
